@@ -35,10 +35,16 @@ FACTS = [SQRT(z3.RealVal(0)) == 0, ROUND(z3.RealVal(0)) == 0, LOGF(z3.RealVal(1)
 
 def load_vault():
     from pyvc import frontend
-    env = dict(os.environ, PYTHONPATH=frontend.repo_root(), PYTHONDONTWRITEBYTECODE='1')
+    verif = os.path.dirname(os.path.dirname(os.path.abspath(__file__)))
+    scratch = os.path.join(verif, '.scratch', f'C12-vault-{os.getpid()}')
+    os.makedirs(scratch, exist_ok=True)
+    # nothing is written next to the sources (numba cache, byte code) and nothing under /tmp is needed
+    env = dict(os.environ, PYTHONPATH=frontend.repo_root(), PYTHONDONTWRITEBYTECODE='1', NUMBA_CACHE_DIR=os.path.join(scratch, 'numba'),
+               PYTHONPYCACHEPREFIX=os.path.join(scratch, 'pyc'))
     code = ('import json; import outrank.feature_transformations.feature_transformer_vault as v; '
             'print("VAULT" + json.dumps({k: dict(d) for k, d in v._tr_global_namespace.items()}))')
-    p = subprocess.run(['/venv/bin/python', '-c', code], env=env, capture_output=True, text=True, cwd='/tmp', timeout=300)
+    p = subprocess.run(['/venv/bin/python', '-c', code], env=env, capture_output=True, text=True, cwd=scratch, timeout=300)
+    subprocess.run(['rm', '-rf', scratch])
     line = [l for l in p.stdout.splitlines() if l.startswith('VAULT')]
     if not line:
         raise RuntimeError('cannot import the transformer vault: ' + p.stderr[-500:])
